@@ -102,7 +102,27 @@ class Ghost:
         return None
 
 
+_roles_cache = {}
+
+
+def with_roles(facts, rep):
+    """facts with the container fields under their canonical names (rename-only refactorings leave every verdict unchanged)"""
+    key = id(facts)
+    if key not in _roles_cache:
+        import roles
+        maps = roles.infer_containers(facts)
+        ren = {g: {k: v for k, v in m.items() if k != v} for g, m in maps.items()}
+        ren = {g: m for g, m in ren.items() if m}
+        f2 = facts
+        if ren:
+            f2 = roles.renamed_fields(facts, maps)
+            rep.assume('fields recognised by role (type and use), reported under their canonical names: ' + '; '.join(f'{g}: ' + ', '.join(f'{k} = {v}' for k, v in sorted(m.items())) for g, m in sorted(ren.items())))
+        _roles_cache.clear(); _roles_cache[key] = f2
+    return _roles_cache[key]
+
+
 def array_rules(facts, rep):
+    facts = with_roles(facts, rep)
     rep.rule('AR.1', 'count agreement on every constructor path: allocation count == number of elements constructed / copied == final m_size; source index == destination index')
     rep.rule('AR.2', 'resize / assignment: elements [new, old) are destroyed exactly once, storage is resized, [old, new) initialised, and on every path that returns m_size equals the number of live elements')
     rep.rule('AR.3', 'deep copy: the copy constructor allocates fresh storage and never stores the source pointer; move is a swap of all fields')
@@ -264,20 +284,54 @@ class RCtx:
         self.writes = [(node, p) for k, node, p in P.events if k == 'write']
 
     def norm(self, l):
-        for d in self.eqs:
-            for sym in ('S', 'C', 'p:newCapacity', 'p:capacity'):
-                c = d.t.get(sym)
-                if c in (1, -1) and sym in l.t:
-                    rest = Lin({k: v for k, v in d.t.items() if k != sym}, d.c)
-                    repl = rest.scale(-1 if c == 1 else 1)
-                    coef = l.t[sym]
-                    l = Lin({k: v for k, v in l.t.items() if k != sym}, l.c) + repl.scale(coef)
-                    break
-        return l
+        """l reduced modulo the equalities of the row (Gaussian elimination over Q, pivots in a fixed symbol order)"""
+        return self._reduce(l, self.eqs)
+
+    @staticmethod
+    def _vec(l):
+        from fractions import Fraction
+        v = {k: Fraction(c) for k, c in l.t.items() if c}
+        if l.c: v['#1'] = Fraction(l.c)
+        return v
+
+    def _reduce(self, l, gens):
+        from fractions import Fraction
+        order = ['S', 'p:newCapacity', 'p:capacity', 'P', 'C']
+        rank = lambda k: (order.index(k) if k in order else -1, k)
+        basis = []           # (pivot symbol, vector) with pivot coefficient 1, each reduced by the earlier ones
+        def red(v):
+            v = dict(v)
+            for piv, b in basis:
+                c = v.get(piv)
+                if c:
+                    for k, x in b.items():
+                        v[k] = v.get(k, 0) - c * x
+                        if v[k] == 0: del v[k]
+            return v
+        for g in gens:
+            v = red(self._vec(g))
+            ks = [k for k in v if k != '#1']
+            if not ks: continue
+            piv = min(ks, key=rank)
+            c = v[piv]
+            v = {k: x / c for k, x in v.items()}
+            # keep the basis fully reduced
+            nb = []
+            for p_, b in basis:
+                cb = b.get(piv)
+                if cb:
+                    b = dict(b)
+                    for k, x in v.items():
+                        b[k] = b.get(k, 0) - cb * x
+                        if b[k] == 0: del b[k]
+                nb.append((p_, b))
+            basis = nb + [(piv, v)]
+        v = red(self._vec(l))
+        if any(x.denominator != 1 for x in v.values()): return l
+        return Lin({k: int(x) for k, x in v.items() if k != '#1'}, int(v.get('#1', 0)))
 
     def cong(self, a, b):
-        x = self.norm(a - b)
-        x = Lin({k: v for k, v in x.t.items() if k != 'C'}, x.c)
+        x = self._reduce(a - b, self.eqs + [Lin.sym('C')])
         return x == Lin.const(0)
 
     def eq(self, a, b):
@@ -317,6 +371,7 @@ class RCtx:
 
     def inner(self, v):
         """linear form congruent to an index value (ModVal / ModPlus / Lin)"""
+        v = self.dom.resolve_rem(v)
         if isinstance(v, ModVal): return v.inner
         if isinstance(v, ModPlus): return v.total()
         if isinstance(v, Lin): return v
@@ -349,6 +404,7 @@ def ring_classes(facts):
 
 def ring_analyse(facts, rep):
     """returns {rule: [(ok, instance, site, why, key)]}"""
+    facts = with_roles(facts, rep)
     res = {}
 
     def add(rule, ok, inst, site, why='', key=None):
@@ -379,6 +435,8 @@ def ring_analyse(facts, rep):
                     ok = this_ok and idx_ok
                 add('RB.1', ok, f'{label}: iterator(*this, {"0" if base == "begin" else "size()"})', site, '' if ok else f'{base}() does not denote logical index {"0" if base == "begin" else "size()"} of this buffer', key=f'RB.1|{base}')
                 continue
+            if base == 'operator==':
+                op_eq_static(f, add, label, site); continue
             try:
                 results = explore(facts, f, T, is_class)
             except Inconclusive as e:
@@ -410,11 +468,11 @@ def check_rb6(ctx, add, label, rt, base):
     P_ = Lin.sym('P')
     cur_pos = Lin.const(0) if ctx.f.d.get('ctor') else P_
     final_pos = ctx.final('m_pos'); final_data = ctx.final('m_data')
-    pos_at = {}
-    pv = cur_pos
+    pos_at = {}; hist_at = {}
+    pv = cur_pos; hist = [cur_pos]
     for k, node, p in ctx.P.events:
-        if k == 'write' and p[0][0] == 'f' and p[0][1] == ('this', 'm_pos'): pv = p[1]
-        if k == 'c': pos_at[id(p)] = pv
+        if k == 'write' and p[0][0] == 'f' and p[0][1] == ('this', 'm_pos'): pv = p[1]; hist = hist + [pv]
+        if k == 'c': pos_at[id(p)] = pv; hist_at[id(p)] = hist
     for n, p in ctx.ev:
         tgts = []
         if p[0] == 'elem': tgts = [(p[2], p[1])]
@@ -430,7 +488,8 @@ def check_rb6(ctx, add, label, rt, base):
                 add('RB.6', None, f'{label} {rt}: {kind} at {off}', n.shortloc(), 'index form not understood'); continue
             pv = pos_at.get(id(p), cur_pos)
             pvl = ctx.inner(pv)
-            same_as_pos = isinstance(pv, Lin) and ctx.eq(off, pv)
+            # the slot may have been designated (reference bound) while the head still had an earlier value
+            same_as_pos = any(isinstance(h, Lin) and ctx.eq(off, h) for h in hist_at.get(id(p), [pv]))
             block_is_final = isinstance(final_data, Ptr) and final_data.base == tgt.base
             pos_zero_for_block = (isinstance(pv, Lin) and pv == Lin.const(0)) if tgt.base == 'data0' and not block_is_final else (block_is_final and isinstance(final_pos, Lin) and final_pos == Lin.const(0) and (tgt.base != 'data0' or (isinstance(pv, Lin) and pv == Lin.const(0))))
             ok = same_as_pos or pos_zero_for_block
@@ -612,14 +671,22 @@ def op_move_assign(ctx, add, label, rt, site):
     add('RB.5', ok, f'{label}: move = swap of all four fields', site, '' if ok else f'only {sorted(flds)} are exchanged: the buffer is left inconsistent', key='RB.5|move')
 
 
+def op_eq_static(f, add, label, site):
+    """operator==: the four-iterator std::equal compares lengths and elements; the three-iterator form without a size test reads
+    past the shorter side (a positive defect); any other formulation (hand-written loop) is not followed"""
+    calls = [n for n in f.nodes() if n.k == 'call' and strip_targs(n.calleeq or '') == 'std::equal']
+    inst = f'{label}: compares [begin, end) of both sides'
+    def names(c): return [strip_targs(x.calleeq or '').split('::')[-1] if x is not None and x.k == 'call' else None for x in c.ns('args')]
+    size_cmp = any(n.k == 'binop' and n.op in ('==', '!=') and all(x is not None and ((x.k == 'call' and strip_targs(x.calleeq or '').split('::')[-1] == 'size') or x.is_field('m_size')) for x in (n.n('lhs'), n.n('rhs'))) for n in f.nodes())
+    if len(calls) == 1 and names(calls[0]) == ['begin', 'end', 'begin', 'end']: add('RB.5', True, inst, site, key='RB.5|eq')
+    elif len(calls) == 1 and len(calls[0].ns('args')) == 3 and not size_cmp:
+        add('RB.5', False, inst, calls[0].shortloc(), 'std::equal with three iterators and no size comparison: buffers of different length compare equal / the shorter one is read past its end', key='RB.5|eq')
+    elif len(calls) == 1 and size_cmp and names(calls[0])[:2] == ['begin', 'end']: add('RB.5', True, inst, site, key='RB.5|eq')
+    else: add('RB.5', None, inst, site, 'operator== is not written with std::equal over both ranges: the comparison is not followed')
+
+
 def op_eq(ctx, add, label, rt, site):
-    calls = [n for n in ctx.f.nodes() if n.k == 'call' and (n.calleeq or '') == 'std::equal']
-    ok = len(calls) == 1 and len(calls[0].ns('args')) == 4
-    if ok:
-        a = calls[0].ns('args')
-        names = [strip_targs(x.calleeq or '').split('::')[-1] if x is not None and x.k == 'call' else None for x in a]
-        ok = names == ['begin', 'end', 'begin', 'end']
-    add('RB.5', ok, f'{label}: compares [begin, end) of both sides', site, '' if ok else 'operator== does not compare both full ranges', key='RB.5|eq')
+    pass
 
 
 def op_ctor_il(ctx, add, label, rt, site):
